@@ -37,15 +37,16 @@
 EXTENDS CimWire
 
 CONSTANTS Types, QualTypes, KeyTypes, Shapes, StrVals, CharVals, Names,
-          MaxEls, MaxDepth, MaxKids, Modes, W, RootKinds
+          MaxEls, MaxDepth, MaxKids, MaxAttrs, Modes, W, RootKinds
 
 StrValsSmall == {<<>>, <<"ltr">>, <<"sp", "cr">>, <<"lt", "amp">>}
+StrValsOne == {<<"lt", "cr">>}
 StrValsSim == {<<>>, <<"ltr">>, <<"sp", "ltr", "sp">>, <<"lt", "amp", "gt">>,
                <<"rbr", "rbr", "gt">>, <<"quot", "apos">>, <<"lf", "tab">>,
                <<"astral", "nbsp">>, <<"amp", "ltr", "ltr">>}
 
-VARIABLES els, cur, last, mode
-vars == <<els, cur, last, mode>>
+VARIABLES els, cur, last, mode, nattr
+vars == <<els, cur, last, mode, nattr>>
 
 Blank(path, et, nm, lvl) ==
   [path |-> path, et |-> et, name |-> nm, lname |-> nm, type |-> "",
@@ -102,7 +103,7 @@ RootValued(k) ==
 
 Init ==
   /\ mode \in Modes
-  /\ cur = <<1>> /\ last = 1
+  /\ cur = <<1>> /\ last = 1 /\ nattr = 0
   /\ \E k \in RootKinds :
         IF k \in {"inst", "class", "ipath", "cpath"}
         THEN els = <<Blank("/", k, "a", 0)>>
@@ -123,7 +124,7 @@ AddProp ==
                              Valued(Blank(KidPath(Top, "prop", nm), "prop", nm, Top.lvl),
                                     t, sh, v))
           /\ last' = Len(els) + 1
-  /\ UNCHANGED <<cur, mode>>
+  /\ UNCHANGED <<cur, mode, nattr>>
 
 (* reference property: NULL, or an instance path that is then filled in    *)
 AddRefProp ==
@@ -141,7 +142,7 @@ AddRefProp ==
                /\ cur' = Append(cur, Len(els) + 2)
                /\ last' = Len(els) + 1
           ELSE /\ els' = es1 /\ cur' = cur /\ last' = Len(els) + 1
-  /\ UNCHANGED mode
+  /\ UNCHANGED <<mode, nattr>>
 
 AddEmb ==
   /\ Len(els) + 1 < MaxEls /\ "string" \in Types
@@ -158,7 +159,7 @@ AddEmb ==
                       \o <<Blank(p0.path \o "emb:0/", kind, "c", Top.lvl + 1)>>
           /\ cur' = Append(cur, Len(els) + 2)
           /\ last' = Len(els) + 1
-  /\ UNCHANGED mode
+  /\ UNCHANGED <<mode, nattr>>
 
 QualTargets ==
   (IF Top.et \in {"inst", "class"} THEN {TopI} ELSE {})
@@ -174,7 +175,7 @@ AddQual ==
                                Valued(Blank(KidPath(els[ti], "qual", nm), "qual", nm,
                                             els[ti].lvl), t, sh, v))
   /\ last' = Len(els) + 1
-  /\ UNCHANGED <<cur, mode>>
+  /\ UNCHANGED <<cur, mode, nattr>>
 
 AddMeth ==
   /\ Room /\ Top.et = "class" /\ NKids(Top, "meth") < MaxKids
@@ -183,7 +184,7 @@ AddMeth ==
                        [Blank(KidPath(Top, "meth", nm), "meth", nm, Top.lvl)
                           EXCEPT !.type = t])
   /\ last' = Len(els) + 1
-  /\ UNCHANGED <<cur, mode>>
+  /\ UNCHANGED <<cur, mode, nattr>>
 
 Meths == {i \in DOMAIN els : els[i].et = "meth"}
 AddParm ==
@@ -195,7 +196,7 @@ AddParm ==
                           [Blank(KidPath(els[mi], "parm", nm), "parm", nm, els[mi].lvl)
                              EXCEPT !.type = t, !.arr = a])
   /\ last' = Len(els) + 1
-  /\ UNCHANGED <<cur, mode>>
+  /\ UNCHANGED <<cur, mode, nattr>>
 
 AddKey ==
   /\ Room /\ Top.et = "ipath" /\ NKids(Top, "kb") < MaxKids
@@ -205,7 +206,7 @@ AddKey ==
                           Valued(Blank(KidPath(Top, "kb", nm), "kb", nm, Top.lvl),
                                  t, "scalar", v))
   /\ last' = Len(els) + 1
-  /\ UNCHANGED <<cur, mode>>
+  /\ UNCHANGED <<cur, mode, nattr>>
 
 AddRefKey ==
   /\ Len(els) + 1 < MaxEls /\ Top.et = "ipath" /\ NKids(Top, "kb") < MaxKids
@@ -218,7 +219,7 @@ AddRefKey ==
                       \o <<Blank(k0.path \o "ref:0/", "ipath", "b", Top.lvl)>>
           /\ cur' = Append(cur, Len(els) + 2)
   /\ last' = Len(els) + 1
-  /\ UNCHANGED mode
+  /\ UNCHANGED <<mode, nattr>>
 
 (* the path of a top-level instance (VALUE.NAMEDINSTANCE & co carry it)    *)
 SetPath ==
@@ -228,7 +229,7 @@ SetPath ==
               \o <<Blank("/path/", "ipath", Top.lname, 0)>>
   /\ cur' = Append(cur, Len(els) + 1)
   /\ last' = Len(els) + 1
-  /\ UNCHANGED mode
+  /\ UNCHANGED <<mode, nattr>>
 
 (* host only together with a namespace: DSP0201 has no element for a host  *)
 (* without namespace                                                       *)
@@ -236,12 +237,12 @@ SetLoc ==
   /\ Top.et \in {"ipath", "cpath"} /\ Top.ns = "~"
   /\ \E h \in {"~", "h"} :
        els' = [els EXCEPT ![TopI].ns = "n", ![TopI].host = h]
-  /\ UNCHANGED <<cur, last, mode>>
+  /\ UNCHANGED <<cur, last, mode, nattr>>
 
 SetSuper ==
   /\ Top.et = "class" /\ Top.sup = "~"
   /\ els' = [els EXCEPT ![TopI].sup = "x"]
-  /\ UNCHANGED <<cur, last, mode>>
+  /\ UNCHANGED <<cur, last, mode, nattr>>
 
 SetAttr ==
   LET el == els[last] IN
@@ -260,11 +261,12 @@ SetAttr ==
      \/ /\ el.et = "qdecl" /\ el.scopes = <<>>
         /\ \E sc \in {<<"CLASS">>, <<"ASSOCIATION", "PROPERTY">>} :
              els' = [els EXCEPT ![last].scopes = sc]
+  /\ nattr < MaxAttrs /\ nattr' = nattr + 1
   /\ UNCHANGED <<cur, last, mode>>
 
 Up == /\ Len(cur) > 1
       /\ cur' = SubSeq(cur, 1, Len(cur) - 1)
-      /\ UNCHANGED <<els, last, mode>>
+      /\ UNCHANGED <<els, last, mode, nattr>>
 
 Next == \/ AddProp \/ AddRefProp \/ AddEmb \/ AddQual \/ AddMeth \/ AddParm
         \/ AddKey \/ AddRefKey \/ SetPath \/ SetLoc \/ SetSuper \/ SetAttr \/ Up
@@ -304,9 +306,20 @@ Mutants(el) ==
   \cup (IF HasFlv(el.et) /\ el.trl = "T" THEN {[el EXCEPT !.trl = "F"]} ELSE {})
 ReqRejects ==
   \A i \in DOMAIN els : \A m \in Mutants(els[i]) :
-     ObjFails(Ev([els EXCEPT ![i] = m])) # {}
+     ElemFails(els[i], m) # {}
 
 ImplMeetsReq == ObjFails(WireEvent(els, mode, W)) = {}
 
-Small == Len(els) <= MaxEls
+(* variants of the pinned tree, one defect each (regression configurations) *)
+WNull   == [WFixed EXCEPT !.nullOk = FALSE]
+WCr     == [WFixed EXCEPT !.x = AsIs]
+WChar16 == [WFixed EXCEPT !.char16Kb = FALSE]
+WBool   == [WFixed EXCEPT !.boolPval = FALSE]
+
+(* a wrong reading of DSP0201 (PROPAGATED defaulting to true): the          *)
+(* requirement must reject it (CimWireMCBadNorm.cfg must FAIL)              *)
+NormBad(es) == [i \in DOMAIN es |->
+                 IF HasPg(es[i].et) /\ es[i].pg = "N" THEN [es[i] EXCEPT !.pg = "T"]
+                 ELSE es[i]]
+ReqAcceptsBadNorm == ObjFails(Ev(NormBad(els))) = {}
 =============================================================================
